@@ -426,32 +426,34 @@ fn str_prefix6(ost: Option<String>) -> Result<Option<Prefix6>, Error> {
 
 fn str_duration(ost: Option<String>) -> Result<Option<std::time::Duration>, Error> {
     ost.map(|st| {
+        let too_large = || Error::InvalidConfig(format!("Duration '{}' is too large", st));
+        /* Adds the pending number, in units of `scale` seconds, to the total. */
+        let add = |ret: std::time::Duration, num: &mut Option<u64>, scale: u64, unit: char| {
+            let n = num.take().ok_or_else(|| {
+                Error::InvalidConfig(format!("Expected a number before {} in duration", unit))
+            })?;
+            n.checked_mul(scale)
+                .and_then(|secs| ret.checked_add(std::time::Duration::from_secs(secs)))
+                .ok_or_else(too_large)
+        };
         let mut num = None;
         let mut ret = Default::default();
         for c in st.chars() {
             match c {
                 '0'..='9' => {
-                    if let Some(n) = num {
-                        num = Some(n * 10 + c as u64 - '0' as u64);
-                    } else {
-                        num = Some(c as u64 - '0' as u64);
-                    }
+                    let digit = c as u64 - '0' as u64;
+                    num = Some(
+                        num.unwrap_or(0_u64)
+                            .checked_mul(10)
+                            .and_then(|n| n.checked_add(digit))
+                            .ok_or_else(too_large)?,
+                    );
                 }
-                's' => {
-                    ret += std::time::Duration::from_secs(num.take().unwrap());
-                }
-                'm' => {
-                    ret += std::time::Duration::from_secs(num.take().unwrap() * 60);
-                }
-                'h' => {
-                    ret += std::time::Duration::from_secs(num.take().unwrap() * 3600);
-                }
-                'd' => {
-                    ret += std::time::Duration::from_secs(num.take().unwrap() * 86400);
-                }
-                'w' => {
-                    ret += std::time::Duration::from_secs(num.take().unwrap() * 7 * 86400);
-                }
+                's' => ret = add(ret, &mut num, 1, c)?,
+                'm' => ret = add(ret, &mut num, 60, c)?,
+                'h' => ret = add(ret, &mut num, 3600, c)?,
+                'd' => ret = add(ret, &mut num, 86400, c)?,
+                'w' => ret = add(ret, &mut num, 7 * 86400, c)?,
                 x if x.is_whitespace() => (),
                 '_' => (),
                 _ => {
@@ -462,8 +464,8 @@ fn str_duration(ost: Option<String>) -> Result<Option<std::time::Duration>, Erro
                 }
             }
         }
-        if let Some(n) = num {
-            ret += std::time::Duration::from_secs(n);
+        if num.is_some() {
+            ret = add(ret, &mut num, 1, 's')?;
         }
         Ok(ret)
     })
